@@ -455,7 +455,7 @@ def random_run(seed, length, dot=False, max_ops=4, profile="general", prefix=())
                 add("CallMeta", 0, [], (), 0.5)
                 add("CallProduce", 0, [1, True], [TPS[0]], 0.2)
             for t in (1, 2, 3, 11, 12):
-                add("Answer", t, 0 if profile == "prune" else rng.choice([0, 0, 0, 0, 7, 5 if t > 3 else 6, 15]))
+                add("Answer", t, 0 if profile == "prune" else rng.choice([0, 0, 0, 0, 0, 7, 5 if t > 3 else 6, 15, 14]))
             add("Timeout")
             for b in (1, 2, 3):
                 for a in ("Drop", "Down", "Up", "Readdress", "MoveCoord", "Retire", "Reap"):
